@@ -292,13 +292,15 @@ def equality_tables(rep, tier):
     at.fact_lt(M, M2)
     at.fact_le(m, Lin.var("pt1"))
     at.fact_le(Lin.var("pt2"), M)
-    changes = ["same", "name", "label", "count", "timestamp", "span", "type-empty", "type"]
+    m0 = Lin.var("m0")
+    at.fact_lt(m0, m)
+    changes = ["same", "name", "label", "count", "timestamp", "span", "type-empty", "type", "tg-max", "tg-min", "tg-extra-tier", "tg-tier-order"]
 
     def code(I, mode):
         def mk(kind, name, e, lo, hi):
             return build_tier(I, kind, name, e, lo, hi)
         A = mk("interval", "T", ents, m, M)
-        if mode == "same":
+        if mode == "same" or mode.startswith("tg-"):
             B = mk("interval", "T", ents, m, M)
         elif mode == "name":
             B = mk("interval", "U", ents, m, M)
@@ -321,28 +323,75 @@ def equality_tables(rep, tier):
         aa = I.truth(I.call_function(eq, [A, A], {}))
         # the same through a textgrid holding the tier
         tgA = I.instantiate(idx.cls("Textgrid"), [m, M], {})
-        tgB = I.instantiate(idx.cls("Textgrid"), [m, M], {})
+        tgB = I.instantiate(idx.cls("Textgrid"), [m0 if mode == "tg-min" else m, M2 if mode == "tg-max" else M], {})
         I.call_value(I.getattr(tgA, "addTier"), [A, None, "silence"], {})
+        if mode == "tg-tier-order":
+            I.call_value(I.getattr(tgA, "addTier"), [mk("point", "P", pts, m, M), None, "silence"], {})
+            I.call_value(I.getattr(tgB, "addTier"), [mk("point", "P", pts, m, M), None, "silence"], {})
         I.call_value(I.getattr(tgB, "addTier"), [B, None, "silence"], {})
+        if mode == "tg-extra-tier":
+            I.call_value(I.getattr(tgB, "addTier"), [mk("point", "P", pts, m, M), None, "silence"], {})
         teq = idx.get("Textgrid.__eq__")
         tab = I.truth(I.call_function(teq, [tgA, tgB], {}))
         tba = I.truth(I.call_function(teq, [tgB, tgA], {}))
         return {"ab": ab, "ba": ba, "aa": aa, "tab": tab, "tba": tba}
 
     def eq(I, got, want):
-        exp = want
+        exp, exp_tg = want
         if not got["aa"]:
             return "a tier is not equal to itself"
         if got["ab"] != got["ba"] or got["tab"] != got["tba"]:
             return "equality is not symmetric: a==b %s, b==a %s; textgrids %s / %s" % (got["ab"], got["ba"], got["tab"], got["tba"])
         if got["ab"] != exp:
             return "tiers compare %s, expected %s" % (got["ab"], exp)
-        if got["tab"] != exp:
-            return "textgrids holding the tiers compare %s, expected %s" % (got["tab"], exp)
+        if got["tab"] != exp_tg:
+            return "textgrids holding the tiers compare %s, expected %s" % (got["tab"], exp_tg)
         return None
-    simple_table(rep, "Q-equality", "TextgridTier.__eq__", at, changes, code, lambda O, mode: mode == "same",
-                 "a 2-interval tier against itself and against one-field perturbations (name, label, count, timestamp, span, type)", eq)
+    simple_table(rep, "Q-equality", "TextgridTier.__eq__", at, changes, code, lambda O, mode: (mode == "same" or mode.startswith("tg-"), mode == "same"),
+                 "a 2-interval tier against itself and against one-field perturbations (name, label, count, timestamp, span, type); textgrids also against a different span, an extra tier, another tier order", eq)
     rep.functions.add(idx.get("Textgrid.__eq__").qual)
+
+    # entry-level equality (constants.Interval / constants.Point), interpreted from the repository's own __eq__ / __ne__
+    import ast as _ast
+    at = Atoms()
+    s_, e_, x_ = at.var("s"), at.var("e"), at.var("x")
+    at.rel("s", "<", "e")
+    emodes = ["same", "start", "end", "label", "point-same", "point-time", "point-label", "interval-vs-point", "interval-vs-tuple"]
+
+    def ecode(I, mode):
+        L, L2 = label_var("L"), label_var("L2")
+        a = Tup([s_, e_, L], "Interval")
+        b = {"same": Tup([s_, e_, L], "Interval"), "start": Tup([x_, e_, L], "Interval"), "end": Tup([s_, x_, L], "Interval"),
+             "label": Tup([s_, e_, L2], "Interval"), "interval-vs-point": Tup([s_, L], "Point"), "interval-vs-tuple": Tup([s_, e_, L])}.get(mode)
+        if mode.startswith("point"):
+            a = Tup([s_, L], "Point")
+            b = {"point-same": Tup([s_, L], "Point"), "point-time": Tup([x_, L], "Point"), "point-label": Tup([s_, L2], "Point")}[mode]
+        r = {"ab": I.compare(_ast.Eq(), a, b), "ba": I.compare(_ast.Eq(), b, a), "aa": I.compare(_ast.Eq(), a, a), "ne": I.compare(_ast.NotEq(), a, b)}
+        return r
+
+    def espec(O, mode):
+        if mode in ("same", "point-same"):
+            return True
+        if mode == "start" or mode == "point-time":
+            return O.eq(x_, s_)
+        if mode == "end":
+            return O.eq(x_, e_)
+        if mode == "interval-vs-tuple":
+            raise DontCare("an Interval against a plain tuple of the same fields: not an entry")
+        return False
+
+    def eeq(I, got, want):
+        if not got["aa"]:
+            return "an entry is not equal to itself"
+        if got["ab"] != got["ba"]:
+            return "entry equality is not symmetric: a==b %s, b==a %s" % (got["ab"], got["ba"])
+        if got["ne"] == got["ab"]:
+            return "a != b is %s although a == b is %s" % (got["ne"], got["ab"])
+        return None if got["ab"] == want else "entries compare %s, expected %s" % (got["ab"], want)
+    simple_table(rep, "Q-equality", "utilities.constants:Interval.__eq__", at, emodes, ecode, espec,
+                 "an Interval / Point against itself and one-field perturbations (start, end, time, label, kind)", eeq)
+    rep.functions.add(idx.get("utilities.constants:Point.__eq__").qual)
+
 
 
 def validate_tables(rep, tier):
